@@ -21,7 +21,51 @@ def sh(cmd, **kw):
     return p.returncode, p.stdout.decode('utf8', 'replace')
 
 
+def refresh(ids, tier='quick'):
+    """Re-run the checks recorded for the kept mutants against the current /repo HEAD + patch, update meta.json."""
+    seeded = os.path.join(ROOT, 'seeded')
+    for sid in sorted(os.listdir(seeded)):
+        if ids and sid not in ids:
+            continue
+        d = os.path.join(seeded, sid)
+        mp = os.path.join(d, 'meta.json')
+        if not os.path.exists(mp):
+            continue
+        meta = json.load(open(mp))
+        wt = '/tmp/seedwt-r-%s-%d' % (sid.lower(), os.getpid())
+        sh(['git', '-C', '/repo', 'worktree', 'add', '-q', '--detach', wt, 'HEAD'])
+        try:
+            rc, o = sh(['git', '-C', wt, 'apply', os.path.join(d, 'patch.diff')])
+            if rc != 0:
+                meta['refresh_error'] = 'patch does not apply to HEAD'
+            else:
+                env = dict(os.environ, PYTHONPATH=wt, PYTHONDONTWRITEBYTECODE='1')
+                env.pop('ADB_SHELL_VERIF', None)
+                rc, o = sh('cd %s && /venv/bin/python -m pytest -q -p no:cacheprovider --timeout=900 tests 2>&1 | tail -3' % wt, env=env)
+                meta['suite_tail'] = o.strip().splitlines()[-1] if o.strip() else ''
+                meta['suite_passes'] = ' passed' in o and ' failed' not in o
+                demo = os.path.join(d, 'demo.py')
+                rc1, _ = sh(['/venv/bin/python', demo], env=env, cwd='/tmp', timeout=600)
+                rc0, _ = sh(['/venv/bin/python', demo], env=dict(env, PYTHONPATH='/repo'), cwd='/tmp', timeout=600)
+                meta['demo_with_change'], meta['demo_without_change'] = rc1, rc0
+                meta['confirmed'] = bool(meta['suite_passes'] and rc1 != 0 and rc0 == 0)
+                for c in list(meta['checks']) + [x for x in meta.get('also', []) if x not in meta['checks']]:
+                    t0 = time.time()
+                    rc, o = sh([os.path.join(ROOT, 'check'), c, '--tier', tier, '--repo', wt, '--no-evidence'], cwd=ROOT, timeout=3600)
+                    lines = [l for l in o.splitlines() if l.startswith(('VIOLATION', 'DESIGN-DRIFT', 'MACHINERY'))]
+                    meta['checks'][c] = dict(exit=rc, tier=tier, wall_s=round(time.time() - t0, 1), lines=[l[:300] for l in lines[:3]])
+                meta['refreshed_at_repo_head'] = sh(['git', '-C', '/repo', 'log', '-1', '--format=%h'])[1].strip()
+        finally:
+            sh(['git', '-C', '/repo', 'worktree', 'remove', '--force', wt])
+            shutil.rmtree(wt, ignore_errors=True)
+        with open(mp, 'w') as f:
+            json.dump(meta, f, indent=1)
+        print(sid, meta.get('confirmed'), {c: v['exit'] for c, v in meta['checks'].items()}, meta.get('refresh_error', ''))
+
+
 def main():
+    if sys.argv[1] == '--refresh':
+        return refresh(sys.argv[2:])
     out, prop = sys.argv[1], sys.argv[2]
     checks = [prop]
     tier = 'quick'
